@@ -2,6 +2,7 @@ package main
 
 import (
 	"fmt"
+	"go/token"
 	"go/types"
 	"strings"
 
@@ -25,8 +26,9 @@ func grolConstantName(name string) bool {
 
 func runC19(c *Ctx, r *Report) {
 	r.Rule("C19.R1", "who may write bindings: stores into / deletes from Environment.store occur only in create, update, SetNoChecks, makeRef and Delete; create/update are called only from SetNoChecks; SetNoChecks is called only from CreateOrSet or with a constant name that is not a constant identifier")
-	r.Rule("C19.R2", "CreateOrSet tests Constant(name) and, when the name is bound to a different value, returns an Error on a path that cannot reach SetNoChecks")
+	r.Rule("C19.R2", "every path of CreateOrSet to SetNoChecks tests Constant(name), and once the name is found bound no path reaches SetNoChecks at all (it returns an Error or the existing value: an Equal value is not an identical one)")
 	r.Rule("C06.R1", "check precedes mutation: (shared with C06) in-place writes to the storage of a looked-up binding happen before any constant check, so a constant holding a large array or map is modified although an error is returned")
+	r.Rule("C05.R3", "(shared with C05) no object that may be a live *Register reaches a binding store without object.Value/CopyRegister")
 	r.Rule("C19.R5", "object.Constant implements the documented predicate: evaluated on every ASCII character at the first and at a later position, it accepts exactly [A-Z] first and [A-Z0-9_] afterwards")
 	r.Rule("C19.R4", "register path: a register is bound to a name (setupRegister/MakeRegister) only where the name is known not to be a constant identifier")
 
@@ -108,41 +110,6 @@ func runC19(c *Ctx, r *Report) {
 	{
 		fn := c.SSAFn(createOrSet)
 		fname := ssaFuncName(fn)
-		equals := c.Fn("object", "Equals")
-		ok := false
-		why := "no `!Equals(old, val)` test returning an Error under `Constant(name)` found"
-		for _, ec := range callsIn(fn, equals) {
-			ecall := ec.(*ssa.Call)
-			for _, ref := range *ecall.Referrers() {
-				ifi, isIf := ref.(*ssa.If)
-				if !isIf {
-					continue
-				}
-				fb := ifi.Block().Succs[1] // !Equals
-				// fb returns an Error and cannot reach SetNoChecks
-				ret, isRet := fb.Instrs[len(fb.Instrs)-1].(*ssa.Return)
-				if !isRet || !mayBeErrorValue(retVal(ret, 0)) {
-					why = "the branch taken when the new value differs does not return an Error"
-					continue
-				}
-				underConst := false
-				for _, cc := range controlling(ifi.Block()) {
-					if call, isCall := cc.Cond.(*ssa.Call); isCall && isCallTo(call, constantFn) && cc.Edge == 0 && call.Common().Args[0] == ssa.Value(fn.Params[1]) {
-						underConst = true
-					}
-				}
-				if !underConst {
-					why = "the value comparison is not under Constant(name)"
-					continue
-				}
-				// old value comes from Get(name) on the same env, new value is the parameter
-				ok = ecall.Common().Args[1] == ssa.Value(fn.Params[2]) || ecall.Common().Args[0] == ssa.Value(fn.Params[2])
-				if !ok {
-					why = "Equals does not compare against the value being assigned"
-				}
-			}
-		}
-		r.Check(ok, "C19.R2", fname, "constant rebinding to a different value returns an Error before SetNoChecks", c.Pos(fn.Pos()), why)
 		// the Constant(name) test dominates SetNoChecks' block's predecessors: SetNoChecks not reachable when check is skipped
 		for _, sc := range callsIn(fn, setNoChecks) {
 			bad := mustPassFromEntry(fn, func(in ssa.Instruction) bool { return isCallTo(in, constantFn) }, func(in ssa.Instruction) bool { return in == sc.(ssa.Instruction) })
@@ -150,6 +117,67 @@ func runC19(c *Ctx, r *Report) {
 				r.Fail("C19.R2", fname, "every path to SetNoChecks tests Constant(name)", c.Pos(sc.Pos()), "SetNoChecks is reachable without the constant test", c.tracePath(bad)...)
 			} else {
 				r.Ok("C19.R2", fname, "every path to SetNoChecks tests Constant(name)", c.Pos(sc.Pos()))
+			}
+		}
+	}
+	// an existing constant is left alone: Equals is coarser than identity ([1] equals [1.0], two closures with
+	// the same text are equal), so rebinding to an "equal" value still changes what the name evaluates to.
+	// Every path to SetNoChecks leaves through "not a constant name" or "not bound yet".
+	{
+		fn := c.SSAFn(createOrSet)
+		fname := ssaFuncName(fn)
+		getFn := c.Fn("object", "Environment.Get")
+		isFoundFlag := func(v ssa.Value) bool {
+			ex, ok := v.(*ssa.Extract)
+			if !ok || ex.Index != 1 {
+				return false
+			}
+			gcall, ok := ex.Tuple.(*ssa.Call)
+			return ok && isCallTo(gcall, getFn) && len(gcall.Common().Args) >= 2 && gcall.Common().Args[1] == ssa.Value(fn.Params[1])
+		}
+		for _, sc := range callsIn(fn, setNoChecks) {
+			target := sc.(ssa.Instruction)
+			seen := map[*ssa.BasicBlock]bool{}
+			var bad []*ssa.BasicBlock
+			var walk func(b *ssa.BasicBlock, trail []*ssa.BasicBlock)
+			walk = func(b *ssa.BasicBlock, trail []*ssa.BasicBlock) {
+				if seen[b] || bad != nil {
+					return
+				}
+				seen[b] = true
+				trail = append(trail, b)
+				for _, in := range b.Instrs {
+					if in == target {
+						bad = append([]*ssa.BasicBlock{}, trail...)
+						return
+					}
+				}
+				if ifi, ok := b.Instrs[len(b.Instrs)-1].(*ssa.If); ok {
+					cond, tEdge, fEdge := ifi.Cond, 0, 1
+					if u, ok := cond.(*ssa.UnOp); ok && u.Op == token.NOT {
+						cond, tEdge, fEdge = u.X, 1, 0
+					}
+					_ = tEdge
+					if call, isCall := cond.(*ssa.Call); isCall && isCallTo(call, constantFn) && call.Common().Args[0] == ssa.Value(fn.Params[1]) {
+						walk(b.Succs[tEdge], trail) // constant name: keep looking; the other edge is a legitimate way to the setter
+						return
+					}
+					if isFoundFlag(cond) {
+						walk(b.Succs[tEdge], trail) // found bound; "not bound yet" is the legitimate way
+						_ = fEdge
+						return
+					}
+				}
+				for _, s := range b.Succs {
+					walk(s, trail)
+				}
+			}
+			walk(fn.Blocks[0], nil)
+			desc := "SetNoChecks is reached only for a name that is not a constant or not bound yet"
+			if bad != nil {
+				r.Fail("C19.R2", fname, desc, c.Pos(sc.Pos()), "a path on which the name is a constant (or was not tested) and is already bound (or was not looked up) reaches the setter: the constant is overwritten; note that an Equals test is not enough, Equals ignores the integer/float distinction inside containers and compares functions by text (A=[1]; A=[1.0] and F=mk(1); F=mk(2))", c.tracePath(&pathResult{exit: target, trace: bad})...)
+			} else {
+				r.Ok("C19.R2", fname, desc, c.Pos(sc.Pos()))
 			}
 		}
 	}
@@ -195,6 +223,36 @@ func runC19(c *Ctx, r *Report) {
 	}
 	if n3 == 0 {
 		r.Ok("C06.R1", "eval", "no in-place write to looked-up bindings", "-")
+	}
+
+	// shared C05.R3: a binding never holds a live register (the name would follow the loop/parameter slot)
+	{
+		t := NewTaint(c, c.registerSpec())
+		finds, checked := t.Findings()
+		nb := 0
+		for _, f := range finds {
+			if _, ok := registerEscapeExceptions[ssaFuncName(f.Fn)+" | "+f.Desc]; ok {
+				continue
+			}
+			bind := false
+			for _, s := range f.Sinks {
+				if strings.Contains(s, "binding store") {
+					bind = true
+				}
+			}
+			if !bind {
+				continue
+			}
+			nb++
+			r.Fail("C05.R3", ssaFuncName(f.Fn), f.Desc, c.Pos(instrPos(f.At)),
+				"an object that may be a *Register is bound to a name without object.Value: a constant bound this way (LIMIT := i) changes whenever the register slot is rewritten, with registers on only; reached: "+strings.Join(f.Sinks, "; "))
+		}
+		if nb == 0 {
+			r.Ok("C05.R3", "eval", fmt.Sprintf("no binding store of a possibly-live register (%d sinks and storing call sites examined)", checked), "-")
+		}
+		if checked < 50 {
+			r.Undecided("C05.R3 (shared): only %d sinks examined", checked)
+		}
 	}
 
 	// R4 register path
